@@ -28,7 +28,7 @@ for d in /verif/seeded/*/; do
     cd /verif
     if git -C /repo diff --quiet && git -C /repo apply "$d/patch.diff"; then
       VERIF_OUT=/tmp/verif-seeded-out ./check "$prop" quick >/tmp/sv-check.log 2>&1; rc=$?
-      git -C /repo checkout -- .
+      git -C /repo checkout -- . ; git -C /repo clean -fdq -- src parser macros tests docs
       echo "$id: ./check $prop quick -> exit $rc :: $(grep -c '^VIOLATION' /tmp/sv-check.log) violation line(s); first: $(grep -m1 'class=' /tmp/sv-check.log | cut -c1-300)" | tee -a "$out"
     else
       echo "$id: could not apply to /repo (dirty?)" | tee -a "$out"
